@@ -10,6 +10,18 @@ RULE = ('Merge of 1-4 datasets (sources, sources + transforms, nested merges) wi
 
 def run(tier, seed, res, lean):
     run_rel('C14', ['merge', 'merge', 'merge', 'filter', 'groupby', 'check_ids'], tier, seed, res, lean, RULE)
+    # the container Merge._merge_containers builds against CM.Model.Merge (the node-level theorems node_switch_* are about its edges)
+    from .. import suite_factory
+    from ..par import pmap
+    from ..runner import Violation
+    outs = pmap(suite_factory.run_merge_shard, [(seed * 1543 + i + 1, 12 if tier == 'quick' else 80) for i in range(16)])
+    bad = [b for o in outs for b in o[1]]
+    res.coverage['merge_containers'] = sum(o[0]['merges'] for o in outs)
+    if bad:
+        res.violations.append(Violation(
+            'c14-merge-container-correspondence',
+            f'the container the real Merge builds and CM.Model.Merge.mergeBags differ: {str({k: v for k, v in bad[0].items() if k != "desc"})[:300]}',
+            {'suite': 'S-FACTORY/merge', 'theorems': [t for t in lean['theorems'] if 'node_' in t], **bad[0]}, found_input=False))
 
 
 replay = replay_rel
